@@ -540,6 +540,50 @@ def _check_adjustments(sp, m, values, exp, gds):
     return cur
 
 
+def check_foreign_avlst(case):
+    """A shape whose a:avLst was written by another producer: only some guides, or all of them in another
+    order. The adjustments must still be reported by name in the definition's order (defaults for the
+    guides that are absent)."""
+    from lxml import etree
+    from pptx import Presentation
+    from pptx.enum.shapes import MSO_SHAPE
+
+    mname, mode = case
+    m = getattr(MSO_SHAPE, mname)
+    stdadj = std_adjustments(m.xml_value)
+    if not stdadj or len(stdadj) < 2:
+        return
+    A = "http://schemas.openxmlformats.org/drawingml/2006/main"
+    prs = Presentation()
+    slide = prs.slides.add_slide(prs.slide_layouts[6])
+    with core.sut("C20:add_shape"):
+        sp = slide.shapes.add_shape(m, 100, 100, 914400, 914400)
+    avLst = sp._element.find(".//{%s}avLst" % A)
+    for ch in list(avLst):
+        avLst.remove(ch)
+    n = len(stdadj)
+    if mode == "last-only":
+        keep = [n - 1]
+    elif mode == "reversed":
+        keep = list(range(n - 1, -1, -1))
+    else:  # "skip-first"
+        keep = list(range(1, n))
+    exp = [d / 100000.0 for _nm, d in stdadj]
+    for k in keep:
+        v = stdadj[k][1] + 1000 * (k + 1)
+        gd = etree.SubElement(avLst, "{%s}gd" % A)
+        gd.set("name", stdadj[k][0])
+        gd.set("fmla", "val %d" % v)
+        exp[k] = v / 100000.0
+    # a fresh proxy over the rewritten XML, as after loading such a deck
+    with core.sut("C20:read-adjustments"):
+        got = [float(x) for x in slide.shapes[len(slide.shapes) - 1].adjustments]
+    if len(got) != len(exp) or any(abs(a - b) > 1e-9 for a, b in zip(got, exp)):
+        raise Violation("C20:adjustments:foreign-avLst:%s" % mode,
+                        "%s with a:avLst holding %s reports adjustments %r, by name in definition order they are %r"
+                        % (mname, [stdadj[k][0] for k in keep], got, exp))
+
+
 def shape_cases(tier):
     from pptx.enum.shapes import MSO_SHAPE
 
@@ -862,7 +906,7 @@ def api_cases():
 
 def jobs(tier):
     js = [{"kind": "enums"}, {"kind": "rejects"}, {"kind": "bindings"}, {"kind": "table"},
-          {"kind": "connectors"}]
+          {"kind": "connectors"}, {"kind": "foreign-avlst"}]
     for i in range(4):
         js.append({"kind": "api", "shard": i, "of": 4})
     for i in range(NSHAPE_SHARDS):
@@ -892,6 +936,15 @@ def _collect_batch(pairs, kind, rec, known):
 def run_job(job, seed, tier, rec, known):
     k = job["kind"]
     classes, aliases = xml_enums()
+    if k == "foreign-avlst":
+        from pptx.enum.shapes import MSO_SHAPE
+        cases = [[m.name, mode] for m in MSO_SHAPE if m.xml_value for mode in ("last-only", "reversed", "skip-first")]
+        cases = [c for i, c in enumerate(cases) if cases.index(c) == i]
+        f = _tag(run_plain(check_foreign_avlst, cases, rec=rec, known=known), "foreign-avlst")
+        n = sum(1 for mn, _md in cases if (std_adjustments(getattr(MSO_SHAPE, mn).xml_value) or [None])[1:])
+        rec.note_enum(len(cases), n, sample=["foreign-avlst", cases[40]])
+        rec.cls("foreign-avlst:cases")
+        return f
     if k == "enums":
         members, _ = enum_cases()
         f = _tag(run_plain(check_member, members, rec=rec, known=known), "member")
@@ -1012,6 +1065,8 @@ def replay(case):
         return collect(check_table, c)
     if kind == "connector":
         return collect(check_connector, c)
+    if kind == "foreign-avlst":
+        return collect(check_foreign_avlst, c)
     if kind == "api":
         return collect(check_api, c)
     if kind == "shape":
